@@ -126,7 +126,35 @@ def run(tier):
     if p.returncode != 0:
         raise vlib.InfraError("hz thresholdq-trace failed: " + p.stderr[-1000:])
     ev_q = vlib.read_ndjson(outq)
-    events = ev_thr + ev_q
+    # the same lists on a platform whose int has 32 bits (GOARCH=386 build of the driver)
+    try:
+        hz386 = vlib.go_build(goarch="386")
+        ok386 = vlib.can_run_386(hz386)
+    except vlib.InfraError:
+        ok386 = False
+    run.extra["int32_platform_pass"] = bool(ok386)
+    if ok386:
+        outq3 = os.path.join(tmp, "tq386.ndjson")
+        p = vlib.run_bin(hz386, ["thresholdq-trace", job, outq3], timeout=900)
+        if p.returncode != 0:
+            raise vlib.InfraError("hz (386) thresholdq-trace failed: " + p.stderr[-1000:])
+        ev3 = vlib.read_ndjson(outq3)
+        for e in ev3:
+            e["arch"] = "386"
+        ev_q += ev3
+        with open(job, "w") as fh:
+            json.dump({"ranges": [[1, 3000], [999001, 1000]] + [[11 * k * k - 1, 3] for k in range(1, 302, 7)], "batch": 1000}, fh)
+        outt3 = os.path.join(tmp, "tt386.ndjson")
+        p = vlib.run_bin(hz386, ["threshold-trace", job, outt3], timeout=900)
+        if p.returncode != 0:
+            raise vlib.InfraError("hz (386) threshold-trace failed: " + p.stderr[-1000:])
+        ev_thr386 = vlib.read_ndjson(outt3)
+        ranges386 = json.load(open(job))["ranges"]
+        for e in ev_thr386:
+            e["arch"] = "386"
+    else:
+        ev_thr386 = []
+    events = ev_thr + ev_q + ev_thr386
     acc, rej, gen = vlib.validate_trace("TraceDecision", events, timeout=3000)
     run.states += acc
     run.transitions += gen
@@ -138,7 +166,18 @@ def run(tier):
     run.sample({"thresholdq_event": {"n": len(ev_q[0]["qs"]), "qs_head": ev_q[0]["qs"][:5], "v": ev_q[0]["v"]}})
     for e in rej:
         # confirm against the real code once more (deterministic functions: re-run and compare the event)
-        if e["ev"] == "threshold":
+        if e["ev"] == "threshold" and e.get("arch") == "386":
+            idx = [i for i, x in enumerate(ev_thr386) if x["s0"] == e["s0"] and x["ts"] == e["ts"]][0]
+            with open(job, "w") as fh:
+                json.dump({"ranges": ranges386, "batch": 1000}, fh)
+            p = vlib.run_bin(hz386, ["threshold-trace", job, outp], timeout=900)
+            again = vlib.read_ndjson(outp)
+            if len(again) <= idx or again[idx]["ts"] != e["ts"]:
+                raise vlib.InfraError("threshold event (386) not reproducible")
+            run.violation({"kind": "threshold", "s0": e["s0"], "arch": "386"},
+                          {"cmd": "threshold-trace", "arch": "386", "ranges": ranges386, "index": idx, "event": {"s0": e["s0"], "n": len(e["ts"]), "ts": e["ts"]},
+                           "why": "TraceDecision.tla rejects: some ts[i] is not the least t with Pred(s,t) (GOARCH=386 build)"})
+        elif e["ev"] == "threshold":
             # the whole call sequence is executed again: the answer may depend on the calls before it
             idx = [i for i, x in enumerate(ev_thr) if x is e or (x["s0"] == e["s0"] and x["ts"] == e["ts"])][0]
             with open(job, "w") as fh:
@@ -151,7 +190,7 @@ def run(tier):
                           {"cmd": "threshold-trace", "ranges": ranges, "index": idx, "event": {"s0": e["s0"], "n": len(e["ts"]), "ts": e["ts"]},
                            "why": "TraceDecision.tla rejects: some ts[i] is not the least t with Pred(s,t) (call sequence = ranges in order)"})
         else:
-            run.violation({"kind": "thresholdq-long", "n": len(e["qs"])},
+            run.violation({"kind": "thresholdq-long", "n": len(e["qs"]), "arch": e.get("arch", "amd64")},
                           {"cmd": "thresholdq-trace", "event": e, "why": "TraceDecision.tla rejects ThresholdQEvent"})
     run.rule = ("ThresholdQ: every multiset of size 1..%d over a 21-value palette (TLC-enumerated, real-layer oracle, tol 1e-12, "
                 "bit-identical under reversal/rotation), non-trivial = distinct multiset with 1e-6 < expected < 1-1e-6; "
@@ -173,6 +212,8 @@ def replay(path):
     hz = vlib.go_build()
     tmp = vlib.scratch("c12r")
     job = os.path.join(tmp, "job.json"); outp = os.path.join(tmp, "o.ndjson")
+    if rp.get("arch") == "386":
+        hz = vlib.go_build(goarch="386")
     if rp["cmd"] == "thresholdq-replay":
         v = rp["vector"]
         with open(job, "w") as fh:
